@@ -2,6 +2,7 @@ import AslModel.Map
 import AslModel.HashMap
 import AslProofs.Map
 import AslProofs.HashMap
+import AslProofs.HashMapEnum
 /-!
 # C02 — Map, Dic, HashMap, HashDic and Set behave as finite maps and sets
 
@@ -763,6 +764,146 @@ theorem set_refines (h : K → Nat) (ops : List (SOp K)) (hops : ∀ o ∈ ops, 
 
 end Sets
 
+/-! ## capacity (`nextPoT`, growth) and enumeration (`Enumerator`, `foreach`, `keys()`, `array()`) -/
+section Capacity
+open AslProofs.HashMapEnum (SizeOK LoadOK)
+open HashMap (HSet)
+variable {K V : Type} [DecidableEq K]
+
+/-- **`nextPoT` for every argument**: for every `n ≤ 2^32` (so for every non-negative `int`) the smearing steps with
+the regenerated shifts give the least power of two `≥ n`; `0` and `1` give `1` -/
+theorem nextPoT_every_size {n : Nat} (hn : n ≤ 2 ^ 32) :
+    ∃ e, e ≤ 32 ∧ HashMap.nextPoT n = 2 ^ e ∧ n ≤ 2 ^ e ∧ (2 ≤ n → 2 ^ e < 2 * n) :=
+  AslProofs.HashMapEnum.nextPoT_spec hn
+
+/-- **`nextPoT` on the C++ `int`**: below 1 it is `0` (no bucket at all — the reason for the clamp in `HashMap(int)`),
+from `1` to `2^30` it is the least power of two `≥ n` and at most `2^30` (no `int` overflow) -/
+theorem nextPoT_int (n : Int) :
+    (n < 1 → HashMap.nextPoTInt n = 0) ∧
+    (1 ≤ n → n ≤ 2 ^ 30 → ∃ e : Nat, e ≤ 30 ∧ HashMap.nextPoTInt n = 2 ^ e ∧ n ≤ 2 ^ e ∧ (2 ≤ n → (2 : Int) ^ e < 2 * n)) := by
+  constructor
+  · intro h; simp [HashMap.nextPoTInt, h]
+  · intro h1 h2
+    have hnn : ¬ n < 1 := by omega
+    obtain ⟨e, he, hp, hge, hlt⟩ := AslProofs.HashMapEnum.nextPoT_spec (n := n.toNat) (by omega)
+    have hcast : ((2 ^ e : Nat) : Int) = (2 : Int) ^ e := by simp
+    have he30 : e ≤ 30 := by
+      by_cases h2' : 2 ≤ n.toNat
+      · have := hlt h2'
+        have : 2 ^ e < 2 ^ 31 := by omega
+        have := (Nat.pow_lt_pow_iff_right (a := 2) (by omega)).mp this
+        omega
+      · have h1' : n.toNat = 1 := by omega
+        rw [h1'] at hp
+        by_cases h : e ≤ 30
+        · exact h
+        · have : 2 ^ 31 ≤ 2 ^ e := Nat.pow_le_pow_right (by omega) (by omega)
+          have : HashMap.nextPoT 1 = 1 := by decide
+          omega
+    refine ⟨e, he30, by simp [HashMap.nextPoTInt, hnn, hp], ?_, ?_⟩
+    · rw [← hcast]; omega
+    · intro h2'; rw [← hcast]; have := hlt (by omega); omega
+
+/-- **the table size is a power of two `≥ 1` for every history**, shared handles included: every constructor
+(`HashMap()`, `HashMap(int n)` for any `n ≤ 2^30`, zero and negative included) gives `2^e` buckets with `e ≤ 30`,
+and `operator[]`/`set` (growth ×`growFactor`, capped by `maxSlots`), `remove`, `clear` and `dup`/`clone`
+(`nextPoT` of the current size) keep that -/
+theorem hashmap_size_pow2_every_history (h : K → Nat) (dflt : V) (ops : List (HOp K V)) :
+    SizeOK (HashMap.empty Gen.HashMap.defaultBuckets : HashMap.HM K V) ∧
+    (∀ n : Int, n ≤ 2 ^ 30 → SizeOK (HashMap.ofSize n : HashMap.HM K V)) ∧
+    ∀ {m : HashMap.HM K V}, SizeOK m → SizeOK (ops.foldl (fun m o => o.run h dflt m) m) := by
+  refine ⟨AslProofs.HashMapEnum.default_size, fun n hn => AslProofs.HashMapEnum.ofSize_size hn, ?_⟩
+  induction ops with
+  | nil => intro m s; exact s
+  | cons o t ih =>
+    intro m s
+    apply ih
+    cases o with
+    | assign k v => exact AslProofs.HashMapEnum.assign_size h dflt s k v
+    | index k => exact AslProofs.HashMapEnum.index_size h dflt s k
+    | remove k => exact AslProofs.HashMapEnum.remove_size h s k
+    | clear => exact AslProofs.HashMapEnum.clear_size s
+    | dup => exact AslProofs.HashMapEnum.dup_size h dflt s
+    | handles r => exact s
+
+/-- **the load bound the code intends**: as long as the table is not shared between handles (while it is, `rehash()`
+deliberately does nothing, c201e90), after every history `length() ≤ (buckets + SKIP)·growNum/growDen`, or the table
+has reached the size (`maxSlots`) at which the code stops growing -/
+theorem hashmap_load_bound_unshared (h : K → Nat) (dflt : V) (ops : List (HOp K V))
+    (hun : ∀ r, HOp.handles r ∈ ops → r ≤ 1) :
+    ∀ {m : HashMap.HM K V}, SizeOK m → m.rc ≤ 1 → LoadOK m →
+      LoadOK (ops.foldl (fun m o => o.run h dflt m) m) := by
+  induction ops with
+  | nil => intro m _ _ l; exact l
+  | cons o t ih =>
+    intro m s r l
+    have hs : SizeOK (o.run h dflt m) :=
+      (hashmap_size_pow2_every_history h dflt [o]).2.2 s
+    have ht : ∀ r, HOp.handles r ∈ t → r ≤ 1 := fun r hr => hun r (List.mem_cons_of_mem _ hr)
+    simp only [List.foldl_cons]
+    cases o with
+    | assign k v =>
+      obtain ⟨l', r'⟩ := AslProofs.HashMapEnum.assign_load h dflt s r l k v
+      exact ih ht hs r' l'
+    | index k =>
+      obtain ⟨l', r'⟩ := AslProofs.HashMapEnum.index_load h dflt s r l k
+      exact ih ht hs r' l'
+    | remove k => exact ih ht hs r (AslProofs.HashMapEnum.remove_load h l k)
+    | clear => exact ih ht hs r AslProofs.HashMapEnum.clear_load
+    | dup =>
+      obtain ⟨l', r'⟩ := AslProofs.HashMapEnum.dup_load h dflt s
+      exact ih ht hs r' l'
+    | handles r0 => exact ih ht hs (hun r0 (by simp)) l
+
+/-- **the `Enumerator` as coded** (constructor, `operator bool`, `operator++`, `~e`, `*e`; also `foreach`/`foreach2`)
+run to completion on a well-formed table never reads outside the array, never dereferences a null node, and yields
+every stored key exactly once with its value — the buckets in index order, each chain in link order -/
+theorem hashmap_enumerator {h : K → Nat} {m : HashMap.HM K V} (inv : Inv h m) :
+    ∃ es, HashMap.walk m = some es ∧ es = HashMap.enum m ∧ es.length = m.n ∧ (es.map (·.1)).Nodup ∧
+      ∀ k v, (k, v) ∈ es ↔ abs m k = some v := by
+  obtain ⟨c, n, a⟩ := hashmap_enumeration inv
+  exact ⟨_, AslProofs.HashMapEnum.walk_eq_enum inv.wf.nb_pos, rfl, c.symm, n, a⟩
+
+/-- **enumeration after any history** (insertions, overwrites, removals, clears, growth, clones, handle copies): the
+enumerator visits exactly the entries of the abstract map that results from the same history, each key once -/
+theorem hashmap_enumerator_every_history (h : K → Nat) (dflt : V) (ops : List (HOp K V))
+    {m : HashMap.HM K V} (inv : Inv h m) :
+    ∃ es, HashMap.walk (ops.foldl (fun m o => o.run h dflt m) m) = some es ∧ (es.map (·.1)).Nodup ∧
+      ∀ k v, (k, v) ∈ es ↔ ops.foldl (fun f o => o.spec dflt f) (abs m) k = some v := by
+  obtain ⟨i, a⟩ := hashmap_refines_finmap h dflt ops inv
+  obtain ⟨es, w, _, _, nd, me⟩ := hashmap_enumerator i
+  exact ⟨es, w, nd, fun k v => by rw [me k v, a k]⟩
+
+/-- a table without buckets — what `nextPoT(0)` would give `HashMap(int)` without its clamp — makes the enumerator's
+constructor read outside the array: the size theorem above is what keeps enumeration in bounds -/
+theorem enumerator_needs_a_bucket {m : HashMap.HM K V} (h0 : m.buckets.length = 0) : HashMap.walk m = none :=
+  AslProofs.HashMapEnum.walk_no_buckets h0
+
+/-- **`Set` enumeration** (`Set::Enumerator` = the map's enumerator read through `~e`; `foreach`, `array()`) after any
+history of set operations: in bounds, every member exactly once -/
+theorem set_enumerator_every_history (h : K → Nat) (ops : List (SOp K)) (hops : ∀ o ∈ ops, ∀ x ∈ o.operands, Inv h x)
+    {s : HSet K} (inv : Inv h s) :
+    ∃ es, HashMap.walk (ops.foldl (fun s o => o.run h s) s) = some es ∧
+      es.map (·.1) = HashMap.sArray (ops.foldl (fun s o => o.run h s) s) ∧ (es.map (·.1)).Nodup ∧
+      ∀ y, y ∈ es.map (·.1) ↔ ops.foldl (fun P o => o.spec h P) (Mem h s) y := by
+  obtain ⟨i, a⟩ := set_refines h ops hops inv
+  obtain ⟨nd, _, me⟩ := set_array_spec i
+  refine ⟨_, AslProofs.HashMapEnum.walk_eq_enum i.wf.nb_pos, rfl, nd, fun y => ?_⟩
+  rw [← a y]; exact me y
+
+/-- **`Map`/`Dic` enumeration** (`Map::Enumerator`, `foreach2`, range-for, `keys()`) after any history: every read is
+inside the array, the entries come in strictly ascending key order, each key once, and they are exactly the abstract map -/
+theorem map_enumerator_every_history {cmp : K → K → Ordering} (so : StrictOrder cmp) (dflt : V) (ops : List (MOp K V))
+    (hadd : ∀ d, .add d ∈ ops → Sorted cmp d) {l : List (K × V)} (hs : Sorted cmp l) :
+    ∃ l', runAll cmp dflt ops l = some l' ∧ Map.walk l' = some l' ∧
+      (Map.keys l').Pairwise (fun a b => cmp a b = .lt) ∧ (Map.keys l').Nodup ∧
+      ∀ k v, (k, v) ∈ l' ↔ specAll dflt ops (fun k => lookup k l) k = some v := by
+  obtain ⟨l', r, hs', a⟩ := map_refines_finmap so dflt ops hadd hs
+  obtain ⟨pw, nd, _, _, me⟩ := map_enumeration so hs'
+  exact ⟨l', r, AslProofs.HashMapEnum.map_walk l', pw, nd, fun k v => by rw [me k v, a k]⟩
+
+end Capacity
+
 /-! ## the two defects repaired in /repo (d4d2172, 12cf1de): the specification rejects the old code -/
 section Old
 
@@ -853,5 +994,14 @@ example : (Gen.HashMap.growNum, Gen.HashMap.growDen, Gen.HashMap.growFactor) = (
 
 /-- "Ab" and "BA" have the same asl hash (the collision named in the property) as long as the multiplier is 33 -/
 example : Gen.HashMap.hashMul = 33 → HashMap.hashBytes [65, 98] = HashMap.hashBytes [66, 65] := by decide
+
+/-- capacity/enumeration theorems: a concrete well-formed table, a history with a removal, the walk -/
+example : AslProofs.HashMapEnum.SizeOK (tbl [1, 5, 9]) ∧ HashMap.walk (HashMap.remove HashMap.hashInt (tbl [1, 5, 9]) 1) = some [(5, 105), (9, 109)] := by
+  refine ⟨⟨2, by omega, by decide⟩, by decide⟩
+example : HashMap.nextPoTInt 0 = 0 ∧ HashMap.nextPoTInt (-3) = 0 ∧ HashMap.nextPoTInt 1 = 1 ∧ HashMap.nextPoTInt 257 = 512 := by decide
+example : AslProofs.HashMapEnum.LoadOK (tbl [1, 5, 9]) ∧ (tbl [1, 5, 9]).rc ≤ 1 := by
+  refine ⟨Or.inl (by decide), by decide⟩
+example : HashMap.walk (⟨[], 0, 1⟩ : HashMap.HM Int Int) = none := by decide
+example : Map.walk [((1 : Int), (10 : Int)), (5, 50), (9, 90)] = some [(1, 10), (5, 50), (9, 90)] := by decide
 
 end C02
